@@ -14,6 +14,7 @@
 package store
 
 import (
+	"bytes"
 	"container/list"
 	"errors"
 	"fmt"
@@ -271,6 +272,11 @@ func (s *CAStore) addToMemoryCache(
 		// The reservation was made for size bytes. Caching an entry of a different
 		// length would make the accounted bytes drift from the bytes actually held.
 		return fmt.Errorf("blob length %d does not match reserved size %d", len(data), size)
+	}
+	// Readers are served from the memory entry as soon as it is added, long before
+	// the drain's disk write verifies it. Verify here, like every other write path.
+	if err := s.verify(bytes.NewReader(data), name); err != nil {
+		return fmt.Errorf("verify digest: %s", err)
 	}
 	metaInfo, err := s.generateMetadataFromBytes(name, data, pieceLength)
 	if err != nil {
